@@ -3,41 +3,11 @@
 //!   vcheck run <PROP> --tier quick|thorough --seed N --build LABEL --known FILE --out PART.json
 //!   vcheck replay <PROP> --case FILE --build LABEL --known FILE
 //!   vcheck list
-mod engine;
-#[cfg(feature = "full")]
-mod forge;
-#[cfg(feature = "full")]
-mod layouts;
-#[cfg(feature = "full")]
-mod mutate;
-#[cfg(feature = "full")]
-mod stone;
-mod props;
-mod refmodel;
+use vharness::engine::*;
+use vharness::props;
 
-use engine::*;
-
-/// Counting allocator: cumulative bytes requested (C17's allocation oracle).
-pub struct Counting;
-pub static ALLOCATED: std::sync::atomic::AtomicU64 = std::sync::atomic::AtomicU64::new(0);
-unsafe impl std::alloc::GlobalAlloc for Counting {
-    unsafe fn alloc(&self, l: std::alloc::Layout) -> *mut u8 {
-        ALLOCATED.fetch_add(l.size() as u64, std::sync::atomic::Ordering::Relaxed);
-        std::alloc::System.alloc(l)
-    }
-    unsafe fn dealloc(&self, p: *mut u8, l: std::alloc::Layout) {
-        std::alloc::System.dealloc(p, l)
-    }
-    unsafe fn realloc(&self, p: *mut u8, l: std::alloc::Layout, n: usize) -> *mut u8 {
-        ALLOCATED.fetch_add(n.saturating_sub(l.size()) as u64, std::sync::atomic::Ordering::Relaxed);
-        std::alloc::System.realloc(p, l, n)
-    }
-}
 #[global_allocator]
-static GLOBAL: Counting = Counting;
-pub fn allocated() -> u64 {
-    ALLOCATED.load(std::sync::atomic::Ordering::Relaxed)
-}
+static GLOBAL: vharness::Counting = vharness::Counting;
 
 use serde_json::{json, Value};
 use std::time::Instant;
@@ -111,6 +81,15 @@ fn main() {
                     eprintln!("property has no child mode");
                     std::process::exit(2);
                 }
+            }
+        }
+        "corpus" => {
+            // vcheck corpus C19 --dir DIR --n N : seed corpus for the libFuzzer target
+            #[cfg(feature = "full")]
+            {
+                let dir = arg(&args, "--dir").expect("--dir");
+                let n: u64 = arg(&args, "--n").and_then(|x| x.parse().ok()).unwrap_or(64);
+                vharness::props::c19::write_corpus(&ctx, &dir, n).expect("write corpus");
             }
         }
         "replay" => {
